@@ -44,6 +44,7 @@ class Report:
             if _size(case) < _size(v['case']):
                 v['case'] = case
                 v['msg'] = msg
+                v['group'] = group
 
     def require(self, cond, what):
         """vacuity guard: the exploration must have exercised `what`; failing is an internal error (exit 2)"""
